@@ -6,16 +6,16 @@ ROOT = os.path.dirname(os.path.dirname(os.path.abspath(__file__)))
 CHECKS = {
  "C01": ("reference model: ground congruence closure over a finite name pool (pool 3m+1 before judging) vs eq / dropped slots / symmetries after every step of generated histories",
          "exploration of generated add/union histories (recipes for symmetry, redundancy, self-reference) against an independent ground closure; sound direction only judged at the pool size for which the oracle is complete",
-         "oracle completeness argument of DESIGN 2.4 (guarded by the N+2 self-check in the thorough tier); bounded term size / names; slot names spelled $a.. / numeric from 1 / numeric from 0 / $f<n>; one stage on e-graphs that carry an analysis"),
+         "oracle completeness argument of DESIGN 2.4 (guarded by the N+2 self-check in the thorough tier); bounded term size / names; slot names spelled $a.. / numeric from 1 / numeric from 0 / $f<n>; one stage on e-graphs that carry an analysis; exhaustive families as in C02 (incl. a slot of a symmetric 3-/4-slot class made redundant)"),
  "C02": ("reference model: ground congruence closure (sound for any pool) vs eq / dropped slots / symmetries / totals after every union of generated histories",
          "every equality, redundancy and symmetry the ground closure derives must be reported right after the union returns",
-         "the ground closure only derives consequences of the asserted equations; bounded term size / names (four spellings); plus two exhaustive families (symmetry transfer, symmetry through a moved e-node) and one stage on e-graphs that carry an analysis"),
+         "the ground closure only derives consequences of the asserted equations; bounded term size / names (four spellings); plus three exhaustive families (symmetry transfer, symmetry through a moved e-node, a slot of a symmetric 3-/4-slot class made redundant in two ways) and one stage on e-graphs that carry an analysis"),
  "C03": ("semantic model oracle: every e-node of every class evaluated in random environments of F_5 (summation binder over the index set {0,1}, let binder) against the class's Bellman-Ford-cheapest e-node, root against direct evaluation; rule pool self-validated at the model level",
          "generated start terms (incl. symmetric four-name terms used twice with permuted names) x rule subsets (incl. rules whose right side introduces a binder) x iterations x substitution method x spelling of the rule slots (as written / like existing class parameter slots)",
          "rule pool valid in the model (self-check); wrong e-node missed with probability 5^-8 per class"),
  "C04": ("constructed expectation: planted instance L.sigma.rho inside a context (optionally only present up to equality through balanced pre-unions) must yield R.sigma.rho represented and equal after one apply_rewrites",
-         "generated patterns, substitutions, renamings, contexts and pre-unions within the scope the property states; plus non-linear and permuted left sides over 3-5 slot leaves made symmetric under a generated group (optionally merged with another class), second use permuted by an element of that group",
-         "cases where a class has a redundant slot are counted out of scope (as the property states)"),
+         "generated patterns, substitutions, renamings, contexts and pre-unions within the scope the property states; plus non-linear and permuted left sides over 3-5 slot leaves made symmetric under a generated group (optionally merged with another class), second use permuted by an element of that group, or the permuted leaf two / three levels below a node that anchors one of its slots with the symmetry learnt only through the merge",
+         "an instance that is represented by construction (through the pre-unions) but cannot be looked up is reported; cases where a class has a redundant slot are counted out of scope (as the property states)"),
  "C05": ("validity predicate: every substitution returned by ematch_all / multi_ematch is total, its instance looks up without inserting, multi-pattern equations hold, fingerprint unchanged",
          "random patterns and multi-patterns against reachable e-graphs; pattern slots spelled as written, like existing class parameter slots ($f<n>), $f0.., or numeric",
          "none beyond bounded sizes"),
@@ -28,7 +28,7 @@ CHECKS = {
  "C08": ("stateful property-based testing: invariants (check(), lookup/enodes/enodes_applied coherence, slot coverage, find idempotence) after every operation of generated operation sequences over all test languages - one sequence in three is observed only at its end, old handles first, because every query compresses union-find paths - in the default, the checks and the explanations build",
          "no panic and a consistent structure after every single operation of generated sequences (add, add_syn, union, rewrite, match, extract)",
          "well-formed inputs only; explanations+checks configuration not covered (DESIGN 7)"),
- "C09": ("metamorphic + differential: lookup vs add (creates nothing <=> lookup succeeds), variants that are represented by construction (alpha, renaming, replacement by united subterm) or that the ground congruence closure proves equal to an inserted term (mutated copies), renaming equivariance; slots of results against the ground closure",
+ "C09": ("metamorphic + differential: lookup vs add (creates nothing <=> lookup succeeds), variants that are represented by construction (alpha, renaming, replacement by united subterm) or that the ground congruence closure proves equal to an inserted term (mutated copies, and every copy with permuted free names of chosen inserted terms), renaming equivariance; slots of results against the ground closure",
          "probe terms on reachable e-graphs (mixed histories incl. rewriting; four spellings of slot names; one stage on e-graphs that carry an analysis)",
          "representedness of variants is by construction; redundancy oracle = ground closure (sound direction for this use)"),
  "C10": ("exhaustive enumeration of generator sets (<=3 generators on 2-4 points) + random sets on 5-6 points against brute-force subgroup closure, directly on the group structure (hook) and through union/eq on multi-slot leaves; redundancy variant judged by the ground closure",
@@ -50,16 +50,16 @@ CHECKS = {
          "generated start e-graphs x rule subsets x iteration / node limits (absolute, and relative to the start size) x failing hooks; one stage whose e-node count grows and then shrinks by congruence",
          "TimeLimit never asserted about"),
  "C16": ("reference canonicaliser on a model AST + algebraic shape laws + occurrence partition + syntax round-trip; exhaustive over small slot assignments, random beyond",
-         "all node variants of six derived languages with repeated and shadowing names, under five spellings incl. one that numbers a node's names $0,$1,.. by first occurrence",
+         "all node variants of seven derived languages (incl. 10-argument operators) with repeated and shadowing names, under five spellings incl. one that numbers a node's names $0,$1,.. by first occurrence; payload values with whitespace in the syntax round trip",
          "child invocations are bijective maps"),
  "C17": ("model-based stateful testing: name<->slot model over generated sequences of fresh / numeric / named / print+parse; metamorphic for the consequence clause: the matcher's validity oracle with pattern slots spelled like existing class parameter slots, judged only if the same case passes with ordinary names",
-         "freshness and injectivity of names against a model map, in a fresh thread per case; no capture of user slots that coincide with invented ones",
+         "freshness and injectivity of names against a model map, in a fresh thread per case (short mixed sequences, and 10-120 / 600 distinct ordinary names with repeated mentions); no capture of user slots that coincide with invented ones",
          "names denoting numbers >= 2^30 are outside the domain"),
  "C18": ("round-trip property (print then parse) over directly constructed values + no-panic/arity predicate over generated and mutated texts",
-         "round-trip over generated terms/patterns/multi-patterns (payload fields in every position, two payloads in one variant) and robustness over token soup, truncations, splices, mutations and near misses of multi-patterns",
+         "round-trip over generated terms/patterns/multi-patterns (payload fields in every position, two payloads in one variant) and robustness over token soup, truncations, splices, mutations, near misses of multi-patterns and of 10-/11-argument nodes; sessions of 2-9 round-trips / parses in several languages in ONE thread, every verdict compared with a fresh thread's",
          "payload spellings restricted as the statement allows"),
  "C19": ("exhaustive enumeration (all sequences <= 5 over 4x4, all 625 maps and pairs) + random long sequences, against a BTreeMap reference",
-         "exhaustive for the small space the property names, random beyond the inline capacity",
+         "exhaustive for the small space the property names, random beyond the inline capacity (25-slot universe incl. fresh slots and the spelled-out name of the very next fresh slot)",
          "operations with checks-mode preconditions only called inside them"),
 }
 
